@@ -87,7 +87,12 @@ func (h *verifC02) noise(kind int, what string) {
 		m = &gossipv1.SignedObservation{Addr: a[:], Hash: h.digest, Signature: zzverif.SignBy(h.n+1, h.digest)} // outsider's signature under a member's address
 	default:
 		// arbitrary bytes that are NOT a valid member observation of this digest (replaying one is a delivery, not noise)
-		m = &gossipv1.SignedObservation{Addr: zzverif.Blob("adv.addr", 20), Hash: zzverif.Blob("adv.hash", 32), Signature: zzverif.Blob("adv.sig", 65)}
+		var addrs [][]byte // replay hints only (see BlobLike): the bytes stay unconstrained
+		for j := 0; j <= h.n; j++ {
+			aj := zzverif.AddrOf(j)
+			addrs = append(addrs, aj[:])
+		}
+		m = &gossipv1.SignedObservation{Addr: zzverif.BlobLike("adv.addr", 20, addrs...), Hash: zzverif.Blob("adv.hash", 32), Signature: zzverif.Blob("adv.sig", 65)}
 		zzverif.Assume(!bytes.Equal(m.Hash, h.digest))
 	}
 	zzverif.NoPanic(func() { h.p.handleObservation(h.ctx, m) })
